@@ -16,10 +16,56 @@ KANI_CORE_BUF = ('core/src/buf_ext.rs', 'kani/core/buf_ext_harness.rs')
 KANI_CORE_KEY = ('core/src/tags/key_impl.rs', 'kani/core/key_impl_harness.rs')
 KANI_CORE_DESER = ('core/src/deserializer.rs', 'kani/core/deserializer_harness.rs')
 KANI_CORE_CONT = ('core/src/serializer.rs', 'kani/core/containers_harness.rs')
+KANI_CORE_CONV = ('core/src/convert_value.rs', 'kani/core/convert_harness.rs')
+KANI_CORE_BUS = ('core/src/bus_listener.rs', 'kani/core/bus_listener_harness.rs')
+KANI_BROKER_ACC = ('broker/src/acceptor.rs', 'kani/broker/acceptor_harness.rs')
 TB_STUB = ['kani::stub of bytes::BytesMut::reserve_inner by a function that asserts false: sound (reachability of the '
            'real function is a proof obligation), used to keep the re-allocation path out of the formula']
 
 PROPS = {
+    'C10': dict(
+        level='proof',
+        verus_units=['broker_bus_listener'],
+        kani=[dict(package='aldrin-core', injections=[KANI_CORE_BUS], jobs=4)],
+        trusted_base=TB_VERUS + TB_KANI + ['BusListenerFilter is an opaque hashable key in the Verus unit (key-model axiom)'],
+        assumptions=['handlers (start_bus_listener, emit_bus_event, process_loop_result) use these predicates as the '
+                     'property says: NOT verified (handler layer)'],
+        undecided_clauses=[
+            'current-enumeration loops, per-connection de-duplication, event ordering (broker.rs handlers)',
+            'cached flags under add_filter/remove_filter (|= on bool and iterator adapters are outside Verus; the '
+            'HashSet<BusListenerFilter> + ConnectionId state is outside Kani)',
+        ],
+        explanation='filter predicate equals its specification for all six filter shapes, all ids and all four bus '
+                    'events (Kani, complete); listener start/stop state machine and flag reset (Verus)',
+    ),
+    'C12': dict(
+        level='proof',
+        kani=[dict(package='aldrin-broker', injections=[KANI_BROKER_ACC], jobs=2),
+              dict(package='aldrin-core', injections=[KANI_CORE_CONV], jobs=4)],
+        trusted_base=TB_KANI,
+        assumptions=['convert(): the current->legacy case is excluded from the identity-rule harness (covered by C13)'],
+        undecided_clauses=[
+            'per-handler version gates and down-translation of calls/aborts/subscribe-all (broker.rs handlers)',
+            'client-side check of the negotiated version (inline in an async fn of aldrin/src/client_builder.rs)',
+            'cross-version payload traffic (C13 decides the converter on bounded shapes only)',
+        ],
+        explanation='handshake acceptance and negotiated version = min(client, 1.20) for all (major, minor, connect '
+                    'kind); epoch of every version; conversion identity rule for all version pairs',
+    ),
+    'C13': dict(
+        level='proof',
+        kani=[dict(package='aldrin-core', injections=[KANI_CORE_CONV, KANI_CORE_KEY], jobs=6)],
+        trusted_base=TB_KANI + TB_STUB,
+        assumptions=[],
+        undecided_clauses=[
+            'container arms of the converter (convert_*2_to_*1 build temporary BytesMut buffers that must grow: out of '
+            'CBMC\'s budget), hence "contains no 1.20 container encodings", idempotence and value equality on containers',
+            'strings; unbounded inputs',
+        ],
+        explanation='epoch mapping and InvalidVersion exactly outside 1.14..1.20; same/newer epoch returns the input '
+                    'unchanged; key re-encoding = decode then encode for every integer/uuid key type on all inputs; '
+                    'every scalar arm of the converter = typed decode then canonical encode on all inputs; depth limit',
+    ),
     'C01': dict(
         level='proof',
         kani=[dict(package='aldrin-core', injections=[KANI_CORE_BUF, KANI_CORE_KEY, KANI_CORE_DESER, KANI_CORE_CONT],
